@@ -495,8 +495,17 @@ func buildDisp(cfg Sx, env *dispEnv) *restful.Container {
 	t := tableFromSx(sxNth(cfg, 0))
 	c := restful.NewContainer()
 	setRouter(c, t.Router, len(t.Services)+len(sxList(sxNth(cfg, 1))))
-	for _, f := range fscriptsFromSx(sxNth(cfg, 1)) {
-		c.Filter(mkFilter(f, env))
+	// set-up order: container filters registered before everything else, or (odd number of them) after the services
+	// and handlers; an equivalent hand-written ServiceErrorHandler on every third configuration
+	cfs := fscriptsFromSx(sxNth(cfg, 1))
+	lateContainerFilters := len(cfs)%2 == 1
+	if !lateContainerFilters {
+		for _, f := range cfs {
+			c.Filter(mkFilter(f, env))
+		}
+	}
+	if len(t.Services)%3 == 1 {
+		c.ServiceErrorHandler(equivalentServiceErrorHandler)
 	}
 	sf := map[string][]FScript{}
 	for _, x := range sxList(sxNth(cfg, 2)) {
@@ -617,6 +626,11 @@ func buildDisp(cfg Sx, env *dispEnv) *restful.Container {
 			defer func() { recover() }()
 			c.Add(ws)
 		}()
+	}
+	if lateContainerFilters {
+		for _, f := range cfs {
+			c.Filter(mkFilter(f, env))
+		}
 	}
 	c.EnableContentEncoding(sxBool(sxNth(cfg, 5)))
 	return c
